@@ -116,6 +116,22 @@ def normal_form_defects(st, w: World, n):
     return None
 
 
+def result_defects(st, w, r, prog):
+    """A term returned by an operation: no zero exponents, and its normal form has the normal-form shape
+    and the same value (evaluated abstractly on the same path)."""
+    for e, x in items_of(r):
+        ex = st.norm(x.rf)
+        if ex.is_const() and ex.const_value() == 0:
+            return f"result carries an item with exponent 0: {r.fields['_items']!r}"
+    n = w.call(r, "normalized")
+    d = normal_form_defects(st, w, n)
+    if d:
+        return f"normal form of the result: {d}: {n.fields['_items']!r}"
+    if not mag(st, n).equals(mag(st, r)):
+        return f"normalising the result changes its value: {mag(st, r)!r} -> {mag(st, n)!r}"
+    return None
+
+
 def run_scenario(prog, res: Result, rule, site, case, body, judge, max_depth=16):
     outs = run_body(prog, body, max_depth=max_depth)
     res.paths += len(outs)
@@ -288,7 +304,9 @@ def run(prog, tier) -> Result:
                 w = World(prog, I, c)
                 c.st.world = w
                 t1, t2 = w.term(build(w, s1)), w.term(build(w, s2))
-                return w.call(t1, opn, t2)
+                r = w.call(t1, opn, t2)
+                c.st.defect = result_defects(c.st, w, r, prog) if isinstance(r, ObjV) else None
+                return r
 
             def judge(o, s1=s1, s2=s2, f=f):
                 st = o.state
@@ -299,6 +317,8 @@ def run(prog, tier) -> Result:
                     return ("operation returns no term", repr(r))
                 if not mag(st, r).equals(want):
                     return ("wrong product / quotient", f"denotes {mag(st, r)!r}, contract {want!r}")
+                if getattr(st, "defect", None):
+                    return ("result of the operation is not a well-formed term", st.defect)
                 return None
             run_scenario(prog, res, "R07.4", f"Term.{opn}", f"({label(s1)}) {opn} ({label(s2)})", body, judge)
     un_specs = [[("A", 1), ("2", 1)], [("3", 1), ("A", 1)], [("B", 1), ("V", -2)], [("2", -1)], [("C", 1), ("D", -1)]]
@@ -307,13 +327,17 @@ def run(prog, tier) -> Result:
             def body(I, c, spec=spec, n=n):
                 w = World(prog, I, c)
                 c.st.world = w
-                return w.call(w.term(build(w, spec)), "__pow__", Num(RF.const(n), "int"))
+                r = w.call(w.term(build(w, spec)), "__pow__", Num(RF.const(n), "int"))
+                c.st.defect = result_defects(c.st, w, r, prog) if isinstance(r, ObjV) else None
+                return r
 
             def judge(o, spec=spec, n=n):
                 st = o.state
                 want = mag_items(st, st.world, build(st.world, spec)).pow_int(n)
                 if not isinstance(o.value, ObjV) or not mag(st, o.value).equals(want):
                     return ("wrong power", f"denotes {mag(st, o.value)!r}, contract {want!r}")
+                if getattr(st, "defect", None):
+                    return ("result of the power is not a well-formed term", st.defect)
                 return None
             run_scenario(prog, res, "R07.4", "Term.__pow__", f"({label(spec)}) ** {n}", body, judge)
 
